@@ -2,6 +2,7 @@ package bindnode
 
 import (
 	"fmt"
+	"math"
 	"reflect"
 	"strings"
 
@@ -815,6 +816,10 @@ func (w *_assemblerRepr) assignUInt(uin datamodel.UintNode) error {
 		uin, err := uin.AsUint()
 		if err != nil {
 			return err
+		}
+		if uin <= math.MaxInt64 {
+			// A UintNode may hold any non-negative integer, not only those beyond the int64 range.
+			return w.AssignInt(int64(uin))
 		}
 		return fmt.Errorf("AssignInt: %d is not a valid member of enum %s", uin, w.schemaType.Name())
 	default:
